@@ -89,6 +89,7 @@ inductive Act
   | iterClose                       -- render_iter.close()
   | finalize                        -- render_data.finalize()
   | setFlag                         -- first_frame_written = True   (pure)
+  | ioctl                           -- fcntl.ioctl(fd, TIOCGWINSZ, buf)  (get_cell_size)
   deriving DecidableEq, Repr
 
 def Act.pure : Act → Bool
